@@ -20,6 +20,9 @@ def info():
     return _INFO
 
 
+TDZ_MESSAGE = "Variable used before its declaration"
+
+
 def impl_status(st):
     """Implementation's status string -> the specification's name for it (or the raw string)."""
     inv = {v: k for k, v in info()["runtime"].items()}
@@ -104,6 +107,15 @@ def judge_run(case, maps, resp, compare_events=False):
     if st == "HANG":
         return ("hang", "no result within the watchdog") if oracle else ("not-oracle", "hang")
     if not oracle:
+        # A hoisted function touching a variable whose `make` has not run: with the plan off the
+        # implementation must report exactly that, at that point (the plan may legitimately have
+        # pruned the access, so the optimised run stays "any reported outcome").
+        if case["st"] == "Unspecified" and case.get("why") == "tdz" and resp.get("mode") in ("nn", "fn") \
+                and st not in ("parse_error", "static_error"):
+            exp_out = [nsast.spec_value(v) for v in nsast.seq(case["out"])]
+            got_out = [nsast.impl_value(v) for v in resp.get("out", [])]
+            if st != TDZ_MESSAGE or got_out != exp_out:
+                return "mismatch", "expected '%s' after %s, got %s %s" % (TDZ_MESSAGE, exp_out, st, got_out)
         return "not-oracle", case["st"]
     if st in ("parse_error", "static_error"):
         msgs = [d["msg"] + ":" + (d["labels"][0]["msg"] if d.get("labels") else "") for d in resp.get("diags", []) if d["sev"] == "error"]
